@@ -4,9 +4,12 @@ import Agd.Driver.Util
 
 Lines:
 * `init K`            – fresh recorder, devices `0 … K-1` are printed;          → `ok`
-* `rec d t c a p`     – `Record`;                                               → pending entry of `d`
-* `begin`             – `resetRecords` + entering `Upload`;                     → `blocked` | `batch …`
-* `ok i` / `fail i`   – the `i`-th in-flight upload returns nil / an error;     → `none` | `pend …`
+* `rec d t c a p [ctx]` – `Record` (the state of its context is ignored);       → pending entry of `d`
+* `recn d n t c a p`  – `n` identical `Record` calls;                           → pending entry of `d`
+* `begin [ctx]`       – `resetRecords` + entering `Upload`;                     → `blocked` | `batch …`
+* `ok i` / `fail i [err]` – the `i`-th in-flight upload returns nil / an error (any value); → `none` | `pend …`
+* `wire d n t c a p`  – `recordToProtobuf` of a record with `n` queries;         → `w d secs nanos c p a queries`
+* `upload n how k`    – `BillStat.Upload` of `n` records, backend `accept|open|send|close|eof`; → `ok sent` | `err`
 * `snap`              – pending table;                                          → `pend …`
 * `totals`            – ghost counters;                                         → `tot d:recorded:delivered …`
 -/
@@ -54,26 +57,57 @@ def tag (t body : String) : String := if body.isEmpty then t else t ++ " " ++ bo
 def showTotals (k : Nat) (s : St) : String :=
   tag "tot" (" ".intercalate ((List.range k).map fun d => s!"{d}:{s.recorded d}:{s.delivered d}"))
 
+/-- `Refresh` up to the call of `Upload`; the state of its context does not matter. -/
+def beginOp (s : S) : S × String :=
+  if blocked s.st .begin then (s, "blocked")
+  else (s.set (stepSer s.st .begin), tag "batch" (showRecs s.k s.st.pending))
+
+/-- `Upload` returned a non-nil error, whatever its value. -/
+def failOp (s : S) (i : Nat) : S × String :=
+  match s.st.inflight[i]? with
+  | none => (s, "none")
+  | some _ =>
+    let st' := stepSer s.st (.endFail i)
+    (s.set st', tag "pend" (showRecs s.k st'.pending))
+
 def step (s : S) : List String → S × String
   | ["init", k] => ({ k := nat! k, tab := Tab.ofSt (nat! k) St.init }, "ok")
   | ["rec", d, t, c, a, p] =>
     let st' := stepSer s.st (.record (nat! d) ⟨int! t, nat! c, nat! a, nat! p⟩)
     (s.set st', tag "pend" (showRecs s.k (fun k => if k = nat! d then st'.pending k else none)))
-  | ["begin"] =>
-    if blocked s.st .begin then (s, "blocked")
-    else (s.set (stepSer s.st .begin), tag "batch" (showRecs s.k s.st.pending))
+  | ["rec", d, t, c, a, p, _ctx] =>
+    -- the state of the caller's context does not matter to `Record`
+    let st' := stepSer s.st (.record (nat! d) ⟨int! t, nat! c, nat! a, nat! p⟩)
+    (s.set st', tag "pend" (showRecs s.k (fun k => if k = nat! d then st'.pending k else none)))
+  | ["recn", d, n, t, c, a, p] =>
+    -- `n` identical `Record` calls, one model step each
+    let s' := Nat.repeat (fun x => x.set (stepSer x.st (.record (nat! d) ⟨int! t, nat! c, nat! a, nat! p⟩))) (nat! n) s
+    (s', tag "pend" (showRecs s.k (fun k => if k = nat! d then s'.st.pending k else none)))
+  | ["begin", _ctx] => beginOp s
+  | ["begin"] => beginOp s
   | ["ok", i] =>
     match s.st.inflight[nat! i]? with
     | none => (s, "none")
     | some _ =>
       let st' := stepSer s.st (.endOk (nat! i))
       (s.set st', tag "pend" (showRecs s.k st'.pending))
-  | ["fail", i] =>
-    match s.st.inflight[nat! i]? with
-    | none => (s, "none")
-    | some _ =>
-      let st' := stepSer s.st (.endFail (nat! i))
-      (s.set st', tag "pend" (showRecs s.k st'.pending))
+  | ["fail", i] => failOp s (nat! i)
+  | ["fail", i, _err] => failOp s (nat! i)
+  | ["wire", d, n, t, c, a, p] =>
+    -- `recordToProtobuf` of a record that should hold `n` queries
+    let w := toWire (nat! d) ⟨⟨int! t, nat! c, nat! a, nat! p⟩, nat! n⟩
+    (s, s!"w {w.dev} {w.secs} {w.nanos} {w.ctry} {w.proto} {w.asn} {w.queries}")
+  | ["upload", n, how, k] =>
+    -- `BillStat.Upload` of `n` records against a backend that behaves as `how`
+    let b : Backend := match how with
+      | "open" => ⟨true, none, .ack⟩
+      | "send" => ⟨false, some (nat! k), .ack⟩
+      | "close" => ⟨false, none, .err⟩
+      | "eof" => ⟨false, none, .eof⟩
+      | _ => ⟨false, none, .ack⟩
+    let batch := (List.range (nat! n)).map fun i => toWire i ⟨⟨0, 0, 0, 0⟩, 1⟩
+    let r := upload b batch
+    (s, if r.1 then s!"ok {r.2.length}" else "err")
   | ["snap"] => (s, tag "pend" (showRecs s.k s.st.pending))
   | ["totals"] => (s, showTotals s.k s.st)
   | _ => (s, "bad-op")
